@@ -544,17 +544,23 @@ def iterator_cmp(i, fr, st, pc, a, t, fn, r):
     concrete Ordering; symbolic data gives the summary Opaque('lexcmp', (left seq, right seq)):
     "lexicographic order of these two word sequences, words compared as unsigned integers"."""
     ia, ib = a
-    la, lb = [], []
-    while True:
-        ia, x = iter_next(i, st, ia)
-        if x is None:
-            break
-        la.append(load_items(i, st, x))
-    while True:
-        ib, y = iter_next(i, st, ib)
-        if y is None:
-            break
-        lb.append(load_items(i, st, y))
+
+    def drain(it, st, pc):
+        # adaptors with closures (map) go through iter_next_multi; a closure that splits the path is not summarised
+        out = []
+        while True:
+            try:
+                it, x = iter_next(i, st, it)
+            except Undecided:
+                subs, oth = iter_next_multi(i, fr, st, pc, it)
+                if len(subs) != 1 or oth:
+                    raise Undecided("Iterator::cmp over an adaptor whose closure splits the path")
+                st, pc, it, x = subs[0]
+            if x is None:
+                return out, st, pc
+            out.append(load_items(i, st, x))
+    la, st, pc = drain(ia, st, pc)
+    lb, st, pc = drain(ib, st, pc)
     if all(isinstance(v, W) and v.val is not None for v in la + lb):
         ka, kb = [v.val for v in la], [v.val for v in lb]
         return _ret(i, st, pc, ordering((ka > kb) - (ka < kb)))
@@ -2460,10 +2466,10 @@ _old_iter_next3 = iter_next
 def iter_next(interp, st, it, back=False):  # noqa: F811
     if isinstance(it, Opaque) and it.kind == "vals":
         vals, pos = it.data
-        if back:
-            raise Undecided("next_back on an owned iterator")
         if pos.val >= len(vals):
             return it, None
+        if back:     # the remaining items are vals[pos..]: hand out the last one
+            return Opaque("vals", (tuple(vals[:-1]), pos)), vals[-1]
         return Opaque("vals", (vals, usize(pos.val + 1))), vals[pos.val]
     if isinstance(it, Arr):
         return iter_next(interp, st, Opaque("vals", (tuple(it.elems), usize(0))), back)
